@@ -613,7 +613,17 @@ func (l *IPFSLog) Join(otherLog iface.IPFSLog, size int) (iface.IPFSLog, error) 
 
 	verifPoint(l, "join.indexed")
 
-	mergedHeads := entry.FindHeads(l.heads.Merge(otherHeads))
+	// Only entries this log holds (it had them already or just accepted them) can
+	// become heads: heads of the other log that were not merged, e.g. entries
+	// carrying another log id, must not enter the log through its heads.
+	acceptedOtherHeads := entry.NewOrderedMap()
+	for _, h := range otherHeads.Slice() {
+		if _, ok := l.Entries.Get(h.GetHash().String()); ok {
+			acceptedOtherHeads.Set(h.GetHash().String(), h)
+		}
+	}
+
+	mergedHeads := entry.FindHeads(l.heads.Merge(acceptedOtherHeads))
 
 	for idx, e := range mergedHeads {
 		// notReferencedByNewItems
